@@ -44,6 +44,9 @@ def _key(kind, original, repl, line, col):
     return (kind, original, repl, line, col)
 
 
+VALIDATE_FLAGS = [{}, {"compact": True}, {}, {"diff_only": True}, {}, {"compact": True, "diff_only": True}, {}, {"profile": "STRICT"}, {}, {"fix": True}]
+
+
 def expected(info) -> collections.Counter:
     c = collections.Counter()
     for r in info["rewrites"]:
@@ -146,12 +149,16 @@ def oracle(doc, sp, text, info, with_tools=None):
     _N["n"] += 1
     if with_tools if with_tools is not None else (_N["n"] % 3 == 0):
         if not curly:
-            r = tools.validate(content=text, schema="META")
-            if r.get("status") == "success":
-                for fld in ("repairs", "repair_log"):
-                    got, _ = from_warnings(r.get(fld) or [])
-                    if got != want:
-                        fails.append((classify("validate." + fld, want, got), f"octave_validate.{fld}: {diff(want, got)} | text={text!r}"))
+            # the receipts are surfaced whatever output flags the call carries (rotated; the plain call every second time)
+            flags = VALIDATE_FLAGS[(_N["n"] // 3) % len(VALIDATE_FLAGS)] if with_tools is None else {}
+            for fl in ([flags] if with_tools is None else VALIDATE_FLAGS):
+                r = tools.validate(content=text, schema="META", **fl)
+                if r.get("status") == "success":
+                    for fld in ("repairs", "repair_log"):
+                        got, _ = from_warnings(r.get(fld) or [])
+                        if got != want:
+                            tag = "+".join(sorted(fl)) or "plain"
+                            fails.append((classify("validate." + fld, want, got) + (":" + tag if fl else ""), f"octave_validate({tag}).{fld}: {diff(want, got)} | text={text!r}"))
             if c1 is not None:
                 r = tools.validate(content=c1, schema="META")
                 got, _ = from_warnings(r.get("repairs") or [])
@@ -174,7 +181,7 @@ def oracle(doc, sp, text, info, with_tools=None):
                 got2, _ = from_corrections(w2.get("corrections") or [])
                 if got2:
                     fails.append(("C07:unlisted:write-canonical-has-receipts", f"octave_write of canonical text reports {sorted(got2.elements(), key=repr)[:3]!r}"))
-            elif not curly or True:
+            elif not info.get("may_be_refused"):  # (NAME{q} with a non-ASCII letter: refusing it is the documented limitation, rewriting it silently is not)
                 fails.append(("C07:unlisted:write-lenient:refused", f"octave_write(lenient=true) refuses: {w.get('errors')} | text={text!r}"))
             if not curly:
                 p2 = os.path.join(root, "s.oct.md")
